@@ -959,7 +959,7 @@ class Prop(Check):
         "Select.C32_builtin_first_false",
     ]
     DRIVER = "Drivers/Select.lean"
-    QUICK_CASES = 560
+    QUICK_CASES = 576
     THOROUGH_CASES = 4000
     PROCS_THOROUGH = 4  # shared machine while the framework is being built
     RULE = ("select: complete enumeration of the 2^4 subsets of {Rule.attr, *.attr, Rule.*, *.*} x {no grammar RREL, "
@@ -975,7 +975,12 @@ class Prop(Check):
             "histories of one meta-model: 1..3 steps of (re-)registration and model load, 1..3 rules with t / ts(list) / u, "
             "every assignment with its own match rule (no split parameter, '.', '/', '::', '/'-separated without "
             "parameter), names of 2..3 parts, values = RREL strings, RREL provider objects with / without split_string, "
-            "callables, one object bound to several keys.  env (configuration of the meta-model around the provider "
+            "callables, one object bound to several keys; re-registrations that take keys away: the empty dictionary, a "
+            "sub-dictionary of the registration in force, the same keys bound to other values.  histories of one "
+            "meta-model over the key subsets (16 cases, complete): all 16 x 16 ordered pairs (subset in force -> subset "
+            "registered next) of the subsets of {Rule.attr, *.attr, Rule.*, *.*} as consecutive registrations, each "
+            "followed by a model load, focus on single / list attributes of two rules, some assignments with a grammar "
+            "RREL.  env (configuration of the meta-model around the provider "
             "call): complete enumeration of the 2^4 subsets x grammar RREL y/n x single / list attribute in a meta-model "
             "with builtins {x: defined in the model too, w: builtin only, y: non-conforming class} while "
             "textx_tools_support, user classes, auto_init_attributes and a postponing provider rotate (64 cases); half of "
@@ -1034,6 +1039,7 @@ class Prop(Check):
                                     "objs": [{"rule": 0, "alt": 0, "t": "x", "ts": ["y", "x"]}], "origin": "enum"})
         out += self.enum_env()
         out += self.enum_multi()
+        out += self.enum_history()
         m = max(0, n - len(out))
         n_same = m // 5
         n_multi = m // 4
@@ -1125,6 +1131,78 @@ class Prop(Check):
                             case["env"] = {"builtins": [[nm, "A"] for nm in dict.fromkeys(names)], "tools": k % 2 == 0,
                                            "classes": ["none", "target", "refs", "both"][(k // 3) % 4]}
                         out.append(case)
+        return out
+
+    def enum_history(self):
+        """histories of ONE meta-model over the key subsets: `register_scope_providers` replaces the registry, so after
+        every registration the *current* subset decides.  All 16 x 16 ordered pairs (previous subset -> next subset) of
+        the subsets of the four documented keys occur as consecutive registrations (a de Bruijn sequence of order 2 over
+        the 16 subsets, cut into 16 histories of 17 registrations + model loads): in particular every non-empty subset
+        is followed by the empty dictionary (the only way back to the default provider), every subset by each of its
+        subsets / supersets / disjoint ones and by itself.  The focus (rule, attribute) the four keys are written for
+        rotates over single / list attributes of two rules; the other assignments see some of the keys, one carries a
+        grammar RREL.  Values rotate: callables, RREL strings, RREL provider objects; which key holds which value
+        changes along the history (same keys, other values)."""
+        seq = []
+        for a in range(16):  # Lyndon words of length 1 and 2 in order = de Bruijn sequence B(16, 2)
+            seq.append(a)
+            for b in range(a + 1, 16):
+                seq += [a, b]
+        walk = seq + [seq[0]]
+        tree = [["a", "b", "x"], ["a", "b", "y"], ["a", "z"], ["c", "x"]]
+        out = []
+        for c in range(16):
+            masks = walk[16 * c:16 * c + 17]
+            fr, fa = c % 2, ATTRS[(c // 2) % 3]
+            # grammar RRELs (never affected by any registration): the other rule's `u`, and in half of the histories
+            # an assignment of the focus rule that the keys `Rule.*` / `*.*` would serve otherwise
+            grr = [(1 - fr, "u")] + ([(fr, "u")] if fa != "u" and c % 4 in (1, 2) else [])
+            rules = []
+            for ri, ms in enumerate((("FQN", "PATH", "DOT"), ("CPP", "FQN", "PATH"))):
+                rules.append({"name": f"R{ri + 1}", "attrs": {
+                    a: {"m": m, "rrel": m_expr("pb", 1) if (ri, a) in grr else None} for a, m in zip(ATTRS, ms)}})
+            rn = rules[fr]["name"]
+            keys = [f"{rn}.{fa}", f"*.{fa}", f"{rn}.*", "*.*"]
+            # (twelve of the histories with callables only: a history whose registrations select RREL strings / plain RREL
+            # objects is run a second time with one fresh grammar-form meta-model per registration, ~10 ms each)
+            variant = {1: 1, 6: 2, 8: 3, 15: 1}.get(c, 0)
+            if variant == 0:
+                provs = [{"p": i} for i in range(4)]
+                vals = [{"o": i} for i in range(4)]
+            elif variant == 1:
+                provs = [{"p": 1}, {"p": 3}]
+                vals = [{"s": m_expr("pa", 0)}, {"o": 0}, {"s": m_expr("pe", 1)}, {"o": 1}]
+            elif variant == 2:
+                provs = [{"expr": m_expr("pa", 1), "split": None}, {"p": 1}, {"expr": m_expr("pe", 0), "split": None}]
+                vals = [{"o": 0}, {"o": 1}, {"o": 2}, {"s": m_expr("pb", 0)}]
+            else:
+                provs = [{"p": 0}, {"expr": m_expr("pa", 0), "split": None}]
+                vals = [{"o": 0}, {"s": m_expr("pb", 1)}, {"o": 1}, {"s": m_expr("pe", 0)}]
+            steps = []
+            for j, mask in enumerate(masks):
+                shift = (j // 3) % 4
+                reg_list = [[keys[b], vals[(b + shift) % 4]] for b in range(4) if mask >> b & 1]
+                if (j + c) % 3 == 1:
+                    reg_list.reverse()
+                reg = {k: v for k, v in reg_list}
+
+                def name_for(ri, attr, q):
+                    r = rules[ri]
+                    if not r["attrs"][attr]["rrel"] and m_selected({"provs": provs}, reg, r, attr) is None:
+                        return [PD_NAMES[q % 3]]
+                    return tree[q % 4]
+
+                objs = []
+                for ri in ((fr, 1 - fr) if j % 2 == 0 else (fr,)):
+                    q = j + c + ri
+                    o = {"rule": ri, "t": name_for(ri, "t", q)}
+                    if ri == fr or j % 4 == 0:
+                        o["ts"] = [name_for(ri, "ts", q + 1 + i) for i in range(2 if ri == fr else 1)]
+                        o["u"] = name_for(ri, "u", q + 3)
+                    objs.append(o)
+                steps.append({"reg": reg_list, "objs": objs})
+            out.append({"kind": "multi", "tree": tree, "rules": rules, "provs": provs, "steps": steps,
+                        "origin": "enum-history"})
         return out
 
     def gen_select(self, rng):
@@ -1241,6 +1319,21 @@ class Prop(Check):
         reg = {}
         for si in range(rng.weighted([(1, 3), (2, 4), (3, 2)])):
             new = some_reg() if (si == 0 and rng.chance(0.93)) or (si > 0 and rng.chance(0.35)) else None
+            # re-registrations that take something away again (register_scope_providers replaces the registry): the
+            # empty dictionary = back to the default provider, a sub-dictionary of the registration in force, the same
+            # keys bound to other values; and the empty dictionary as the very first registration
+            how = rng.weighted([("keep", 5), ("empty", 2), ("sub", 2), ("rebind", 1)])
+            if si > 0 and reg and how != "keep":
+                cur = [[k, v] for k, v in reg.items()]
+                if how == "empty":
+                    new = []
+                elif how == "sub":
+                    new = [e for e in cur if rng.chance(0.5)]
+                else:
+                    vs = [v for _, v in cur]
+                    new = rng.shuffle([[k, vs[(i + 1) % len(vs)]] for i, (k, _) in enumerate(cur)])
+            elif si == 0 and new is None and how == "empty":
+                new = []
             if new is not None:
                 reg = {k: v for k, v in new}
 
